@@ -7,7 +7,7 @@
 EXTENDS C01, Json, IOUtils
 
 VARIABLES tid, l
-tvars == <<mesh, act, obs, tid, l>>
+tvars == <<mesh, moved, act, obs, tid, l>>
 
 Traces == JsonDeserialize(IOEnv.TRACE_FILE)
 T  == Traces[tid]
@@ -17,6 +17,7 @@ Verd(c, name) == IF c THEN TRUE ELSE PrintT(<<"VERDICT", Traces[tid].id, l + 1, 
 TInit == /\ tid \in 1 .. Len(Traces)
          /\ l = 0
          /\ mesh = Traces[tid].mesh
+         /\ moved = <<>>
          /\ act = <<"new">>
          /\ obs = [n |-> Traces[tid].n, len |-> Traces[tid].len]
 
@@ -57,7 +58,7 @@ StepByCell == /\ Ev.k = "by_cell"
 TNext == /\ l < Len(Traces[tid].ev)
          /\ (StepP2I \/ StepI2P \/ StepAxis \/ StepIter \/ StepByCell)
          /\ l' = l + 1
-         /\ UNCHANGED <<mesh, tid>>
+         /\ UNCHANGED <<mesh, moved, tid>>
          /\ Verd(Traces[tid].n = mesh.n /\ Traces[tid].len = NCells(mesh), "len-and-n")
 TSpec == TInit /\ [][TNext]_tvars
 =============================================================================
